@@ -461,10 +461,14 @@ func (t *Trie) updateRefCount(h util.Uint256, key []byte, index uint32) int32 {
 		data, err = getFromStore(key, t.mode, t.Store)
 		if err == nil {
 			cnt = int32(binary.LittleEndian.Uint32(data[len(data)-4:]))
+			// The slice belongs to the store (probably to its lower layer), it
+			// must not be changed until the new value is Put.
+			data = slices.Clone(data)
 		}
 	}
 	if len(data) == 0 {
-		data = append(node.bytes, 1, 0, 0, 0, 0)
+		// node.bytes can be a part of the stored value as well.
+		data = slices.Concat(node.bytes, []byte{1, 0, 0, 0, 0})
 	}
 	cnt += node.refcount
 	switch {
